@@ -236,9 +236,9 @@ def write_replay(ctx, slot, desc, mode, cfgA, cfgB, extra=None):
     return d
 
 
-def native_pair(E, mode, cfgA, cfgB, build=True, srcs=None):
+def native_pair(E, mode, cfgA, cfgB, build=True, srcs=None, what='key'):
     """real library: keys of A and B; and, when both build, whether B built after A in one cache directory runs its own code"""
-    recs, _ = E.run(mode, 'key', [cfgA, cfgB], trace=False, srcs=srcs)
+    recs, _ = E.run(mode, what, [cfgA, cfgB], trace=False, srcs=srcs)
     res = {'keyA': recs[0].get('key'), 'keyB': recs[1].get('key')}
     res['keys_equal'] = res['keyA'] is not None and res['keyA'] == res['keyB']
     if build:
@@ -287,6 +287,21 @@ def run(ctx):
             slot += 1
             d = write_replay(ctx, slot, 'the kernel source text does not reach the key', mode, cfg, cfg, {'srcA': SRC, 'srcB': SRC.replace('+ i', '+ i + 1')})
             ctx.violations.append(('%s: source text is not a leaf of the key term' % mode, d))
+        # the same source through a file (device::buildKernel hashes the file content with occa::hashFile)
+        rf, sf = E.run(mode, 'keyfile', [cfg])
+        recf = {'query': '%s/source-file' % mode, 'desc': 'source given as a file: the whole file content is a leaf of the key term, the key equals the key of the same text given as a string, and changing the last or a middle byte changes the real key',
+                'seconds': 0, 'witness': 'reached', 'properties': 4, 'status': 'pass'}
+        lf, _ = term_of(sf[0], rf[0]['key'])
+        variants = [SRC + ' ', SRC.replace('100 * VALUE', '101 * VALUE'), SRC[:-2] + '\n}\n']
+        rv, _ = E.run(mode, 'keyfile', [cfg] * len(variants), trace=False, srcs=variants)
+        ctx.selftests += 1
+        badv = [i for i, r in enumerate(rv) if r.get('key') == rf[0]['key']]
+        if SRC.encode() not in lf or rf[0]['key'] != key or badv:
+            recf['status'] = 'fail'
+            slot += 1
+            d = write_replay(ctx, slot, 'source files: content does not (fully) reach the key', mode, cfg, cfg, {'srcA': SRC, 'srcB': variants[badv[0]] if badv else SRC + ' ', 'fromfile': True})
+            ctx.violations.append(('%s: kernel source given as a file: %s' % (mode, 'a changed file keeps the key' if badv else 'file content is not the hashed leaf / key differs from the string build'), d))
+        ctx.queries.append(recf)
         tm = templates(leaves, cfg)
         ctx.extra.setdefault('key_terms', {})[mode] = {'leaves': [t[:120] for t in text_leaves], 'opaque_leaves': opaque,
                                                        'templates': {p: {k: v for k, v in t.items() if k != 'leaf'} or {'leaf': t['leaf'][:100]} for p, t in tm.items()}}
@@ -416,7 +431,7 @@ def replay_dir(ctx, d):
         bad = r1[0].get('key') != r2[0].get('key')
         print('keys: %s %s' % (r1[0].get('key'), r2[0].get('key')))
     else:
-        nat = native_pair(E, meta['mode'], meta['A'], meta['B'], build=bool(meta.get('build')), srcs=srcs)
+        nat = native_pair(E, meta['mode'], meta['A'], meta['B'], build=bool(meta.get('build')), srcs=srcs, what='keyfile' if meta.get('fromfile') else 'key')
         print(json.dumps(nat, indent=1))
         bad = nat['keys_equal']
     print('replay rc=%d (%s)' % (1 if bad else 0, 'reproduced: two different configurations share one cache key' if bad else 'not reproduced'))
